@@ -165,21 +165,26 @@ func runC12(c *core.Ctx) {
 					_ = x
 				}
 			})
-			closedEdge := func(b *ssa.BasicBlock) bool {
-				for _, cnd := range core.EdgeFacts(b) {
-					n := core.Normalize(cnd)
-					if n.True && flagRead(p, n.V, sm.Params[0].Name(), "isClosed", 0) {
-						return true
-					}
-				}
-				return false
-			}
-			min, max := core.PathCount(sm, func(ins ssa.Instruction) int {
+			isSend := func(ins ssa.Instruction) int {
 				if s, ok := ins.(*ssa.Send); ok && core.FieldKey(s.Chan) == box.field && core.FieldBase(s.Chan) == sm.Params[0].Name() && s.X == ssa.Value(sm.Params[1]) {
 					return 1
 				}
 				return 0
-			}, closedEdge)
+			}
+			// count on the not-closed edge of the closed-flag test (whichever way the guard is written)
+			start := edgeStart(sm, func(v ssa.Value) bool { return flagRead(p, v, sm.Params[0].Name(), "isClosed", 0) }, false)
+			min, max := 0, 0
+			if start != nil {
+				min, max = core.PathCountFrom(start, nil, isSend, nil)
+				// and nothing is sent on the closed edge
+				if cs := edgeStart(sm, func(v ssa.Value) bool { return flagRead(p, v, sm.Params[0].Name(), "isClosed", 0) }, true); cs != nil {
+					if _, cmax := core.PathCountFrom(cs, nil, isSend, func(b *ssa.BasicBlock) bool { return b == start || start.Dominates(b) }); cmax > 0 {
+						max = 100
+					}
+				}
+			} else {
+				min, max = core.PathCount(sm, isSend, nil)
+			}
 			if bad == "" && !(min == 1 && max == 1) {
 				bad = fmt.Sprintf("sends its argument %d..%d times on the not-closed path (must be exactly 1)", min, max)
 			}
